@@ -1,7 +1,6 @@
 package main
 
 import (
-	"errors"
 	"bytes"
 	"crypto/md5"
 	"crypto/sha1"
@@ -9,6 +8,7 @@ import (
 	"crypto/sha512"
 	"encoding/hex"
 	"encoding/json"
+	"errors"
 	"fmt"
 	"io"
 	"math/rand"
